@@ -336,8 +336,7 @@ theorem N1_t_polar_partial (hc : c * c = 2) (h2 : (2:K) ≠ 0) (A : M3 K) :
      | [u0, u1, u2, r0, r1, r2] =>
          M3.diag r0 r1 r2 = 1 ∧ M3.diag r0 r1 r2 * M3.diag u0 u1 u2 = M3.diag A.a00 A.a11 A.a22
      | _ => False) := by
-  t4_unfold
-  refine ⟨⟨?_, ?_, ?_⟩, ⟨?_, ?_, ?_⟩⟩ <;> first | trivial | rfl | ring1
+  t4_eq hc
 '''
 
 
@@ -364,11 +363,11 @@ def cb_module():
                      % ({"st": "st2tost2", "tt": "t2tot2"}[q1], {"st": "st2tost2", "tt": "t2tot2"}[q2]))
             o.append("theorem N%d_%s_change_basis (a : Fin %d → Fin %d → K) (r : Fin 3 → Fin 3 → K) :\n" % (N, fam, full[0], full[1]))
             o.append("    let q : Fin %d → Fin %d → K := matOf %d (gen%% (Gen.N%d_%s_fromRotationMatrix_all c c3 fn) | r 3 3)\n"
-                     % ({"st": 6, "tt": 9}[q1], {"st": 6, "tt": 9}[q1], R1, N, q1))
+                     % ({"st": 6, "tt": 9}[q1], R1, R1, N, q1))
             o.append("    let qt : Fin %d → Fin %d → K := matOf %d (gen%% (Gen.N%d_%s_fromRotationMatrix_all c c3 fn) | (T2.transpose r) 3 3)\n"
-                     % ({"st": 6, "tt": 9}[q2], {"st": 6, "tt": 9}[q2], R2, N, q2))
+                     % ({"st": 6, "tt": 9}[q2], R2, R2, N, q2))
             o.append("    let qa : Fin %d → Fin %d → K := matOf %d (gen%% (Gen.N%d_%s_all c c3 fn) | q %d %d | a %d %d)\n"
-                     % (full[0], full[1], c_, N, c1, R1, R1, r, c_))
+                     % (full[0], c_, c_, N, c1, R1, R1, r, c_))
             o.append("    (gen%% (Gen.N%d_%s_change_basis_all c c3 fn) | a %d %d | r 3 3)\n      = gen%% (Gen.N%d_%s_all c c3 fn) | qa %d %d | qt %d %d := by\n  intro q qt qa\n  t4_same_zd\n\n"
                      % (N, fam, r, c_, N, c2, r, c_, R2, R2))
     D = Dim(1)
